@@ -661,7 +661,18 @@ def _s_match_groupdict(it, v, args, kwargs, node):
     return d
 
 
+def _s_codec(op):
+    def f(it, v, args, kwargs, node):
+        codec = _codec_of(it, args, kwargs)
+        it.event('codec', node, op=op, value=v, codec=codec)
+        r = SymV(it.fresh(op + 'd'), 'elem' if v.kind == 'elem' else 'any', origin=(op, v, codec), tags=value_tags(v))
+        r.codec = codec
+        return r
+    return f
+
+
 SYM_METHODS = {
+    ('*', 'decode'): _s_codec('decode'), ('*', 'encode'): _s_codec('encode'),
     ('logger', 'debug'): _s_total('debug'), ('logger', 'info'): _s_total('info'),
     ('logger', 'warning'): _s_total('warning'), ('logger', 'error'): _s_total('error'),
     ('logger', 'exception'): _s_total('exception'), ('logger', 'critical'): _s_total('critical'),
